@@ -156,6 +156,11 @@ func vNewShard(i, K int, full bool, env int) *vShard {
 	if env&16 != 0 {
 		// bit 4: concrete loads (used for the "other" replica in C19's quick tier)
 		s.rt = shard.RuntimeInfo{HeadSeries: 5, ProcessSeries: 7}
+		if i > 0 {
+			// later shards are empty, so that limits exist under which shard 0 needs relief and
+			// another shard has room
+			s.rt = shard.RuntimeInfo{HeadSeries: 0, ProcessSeries: 0}
+		}
 		for h := 1; h <= K; h++ {
 			if zzv.Choose(p+".has."+zzv.Itoa(h), 2) == 1 {
 				st := target.NewScrapeStatus(3, 4)
